@@ -10,9 +10,12 @@ Model of pkg/synchronization/core/ignore/mutagen/ignore.go
 Strings are `List Char`; the harness only sends valid UTF-8, on which the
 byte-level tests of the Go code (`pattern[0] == '!'`, `'/'`) coincide with
 character-level tests. `doublestar.Match` is the parameter `m` of
-`Pattern.matchesWith` / `loop`; `Glob.gmatch` (its executable specification)
-is plugged in by `matches` / `Ignorer.ignore`. Go's `path.Clean` and
-`path.Base` (standard library) are transcribed component-wise.
+`Pattern.matchesWith` / `loop` (all theorems hold for every `m`); the
+executable model plugs in `Doublestar.dsMatch`, the transcription of the
+library's matching loop (`matches` / `Ignorer.ignore`), which the harness
+compares with the library and with the clean specification `Glob.gmatch`.
+Go's `path.Clean` and `path.Base` (standard library) are transcribed
+component-wise.
 Core Lean only.
 -/
 namespace Mutagen.Model.IgnoreMutagen
